@@ -14,7 +14,7 @@ import vlib
 from vlib import coqlist, zlit
 
 PROPERTY = "C04"
-MODEL_TARGETS = ["Model/C04AddrMap.vo", "Model/C04Csr.vo"]
+MODEL_TARGETS = ["Model/C04AddrMap.vo", "Model/C04Csr.vo", "Model/C04Rocc.vo"]
 RULE = ("part A: streamer configurations with 1-30 streamers (>26 exercises the name truncation), 0-7 temporal "
         "dims, 0-3 spatial dims, every subset of {address-remap, channel-mask, byte-mask, broadcast, transpose} plus "
         "0-3 DMA extensions (real classes and synthetic names / csr lengths 0-5, duplicate names in the malformed "
@@ -408,16 +408,14 @@ def search_A(ctx, deep):
 
 
 # ------------------------------------------------------------------------------------------ driver
-try:
-    import props.c04_lower as _B
-except Exception:  # part B not present yet
-    _B = None
+import props.c04_lower as _B
+import props.c04_rocc as _R
 
 
 def correspondence(ctx):
     dis = correspondence_A(ctx)
-    if _B is not None:
-        dis += _B.correspondence_B(ctx)
+    dis += _B.correspondence_B(ctx)
+    dis += _R.correspondence_R(ctx)
     return dis
 
 
@@ -433,8 +431,8 @@ def _dedup(fails):
 
 def search(ctx, deep=False):
     fails = search_A(ctx, deep)
-    if _B is not None:
-        fails += _B.search_B(ctx, deep)
+    fails += _B.search_B(ctx, deep)
+    fails += _R.search_R(ctx, deep)
     return _dedup(fails)
 
 
@@ -451,8 +449,10 @@ def replay(ctx, obj):
         for b in obj.get("no_longer_checks", []):
             print("  ", b.get("kind"), b.get("name"), str(b.get("detail"))[:1500])
         return 1
-    if f.get("part") == "B" and _B is not None:
+    if f.get("part") == "B":
         return _B.replay(ctx, f)
+    if f.get("part") == "R":
+        return _R.replay(ctx, f)
     cfg = f.get("cfg")
     if cfg is not None:
         cfg = ([(list(t), list(sp), [tuple(o) for o in opts]) for (t, sp, opts) in cfg[0]], cfg[1])
